@@ -664,6 +664,10 @@ class Sim(object):
             raise _real_socket.timeout("timed out {0!r}")
         if f == "oserror":
             raise OSError(errno.EIO, "injected I/O error {x} %(y)s }{")
+        if f in ("eintr", "partial_eintr"):
+            raise InterruptedError(errno.EINTR, "Interrupted system call {0}")
+        if f in ("eagain", "partial_eagain"):
+            raise BlockingIOError(errno.EAGAIN, "Resource temporarily unavailable %s")
         if f == "sslerror":
             raise _real_ssl.SSLError("injected TLS error {0} %s")
         if f == "exc":
@@ -831,6 +835,13 @@ class Sim(object):
         if st.broken:
             self.log_op("send_fail", st, data)
             self.raise_broken(st, sending=True)
+        if f and f.startswith("partial_"):
+            # sendall() got part of the data out before it failed (it cannot say how much): those bytes ARE on the wire
+            half = data[:max(1, len(data) // 2)]
+            self.log_op("send", st, half)
+            st.note_write(half)
+            self.log_op("send_fail", st, data[len(half):])
+            self.raise_fault(f, st)
         if f:
             self.log_op("send_fail", st, data)
             self.raise_fault(f, st)
